@@ -917,17 +917,23 @@ static int upipe_ts_encaps_overlap_au(struct upipe *upipe,
     }
 
     uint64_t dts_pts_delay = 0;
-    uref_clock_get_dts_pts_delay(uref_au2, &dts_pts_delay);
+    bool has_delay =
+        ubase_check(uref_clock_get_dts_pts_delay(uref_au2, &dts_pts_delay));
     uint64_t dts_prog = UINT64_MAX;
     uref_clock_get_dts_prog(uref_au2, &dts_prog);
+    uint64_t pts_prog = UINT64_MAX;
+    uref_clock_get_pts_prog(uref_au2, &pts_prog);
 
-    /* Adjust overlap's dts_prog and pts_prog */
+    /* Adjust overlap's dts_prog and pts_prog: AU2 may also have a DTS
+     * without a PTS, or a PTS alone */
     uref_clock_delete_date_prog(uref_overlap);
     uref_clock_delete_dts_pts_delay(uref_overlap);
     if (dts_prog != UINT64_MAX) {
         uref_clock_set_dts_prog(uref_overlap, dts_prog);
-        uref_clock_set_dts_pts_delay(uref_overlap, dts_pts_delay);
-    }
+        if (has_delay)
+            uref_clock_set_dts_pts_delay(uref_overlap, dts_pts_delay);
+    } else if (pts_prog != UINT64_MAX)
+        uref_clock_set_pts_prog(uref_overlap, pts_prog);
     uref_block_set_start(uref_overlap);
     uref_block_delete_end(uref_overlap);
     uref_flow_delete_discontinuity(uref_overlap);
